@@ -81,7 +81,9 @@ class Gen:
         if allow_amp and r.random() < 0.5:
             items.append(('amp',))
         elif r.random() < 0.4:
-            items.append(('elem', r.choice(ELEMS)))
+            items.append(('elem', '*' if ('star' in self.f and r.random() < getattr(self, 'star_p', 0.25)) else r.choice(ELEMS)))
+        if items and items[0] == ('elem', '*'):
+            return items          # the universal selector stands alone: '*.c' / '*#i' are known finding F29
         n = r.choice([0, 1, 1, 1, 2]) if items else r.choice([1, 1, 2])
         for _ in range(n):
             k = r.random()
@@ -105,9 +107,10 @@ class Gen:
                 items.append(('attr', r.choice(ATTRS)))
             else:
                 items.append(('class', '.' + self.name()))
-        if allow_amp and r.random() < 0.15 and items[-1][0] != 'elem' and not ('noglue' in self.f and items[-1][0] == 'amp'):
+        if allow_amp and r.random() < 0.15 and items[-1][0] not in ('elem', 'id') and not ('noglue' in self.f and items[-1][0] == 'amp'):
             # (an & glued to an element name would make a new element name, 'body&' under 'section' = 'bodysection':
-            #  CSS the front end of lesscpy does not read back, outside the fragment)
+            #  CSS the front end of lesscpy does not read back, outside the fragment; an & glued to an id can make an id shaped like a
+            #  hex colour, '#a1&' under 'b' = '#a1b', which the front end reads as a colour: plain_wf of DESIGN 3/C01)
             items.append(('amp',))
         return items
 
@@ -124,7 +127,12 @@ class Gen:
                     items.append(('desc',))
                 else:
                     items.append(('comb', r.choice('>+~'), r.random() < 0.7))
-            items += self.compound(allow_amp=amp and (i == 0 or r.random() < 0.4))
+            c = self.compound(allow_amp=amp and (i == 0 or r.random() < 0.4))
+            if c == [('elem', '*')] and 0 < i < ncomp - 1:
+                c = [('elem', 'div')]        # '*' between two other compounds ('a * span') is a syntax error in lesscpy: known finding F29
+            if c == [('elem', '*')] and i == 0 and ncomp > 1 and nested:
+                c = [('elem', 'div')]
+            items += c
         return items
 
     def selectors(self, nested=False):
@@ -213,6 +221,9 @@ class Gen:
         return out
 
     def decl(self, scopevars):
+        if 'custom' in self.f and self.rng.random() < 0.15:
+            # a custom property; no !important (a known double blank there is outside the properties)
+            return ('decl', self.rng.choice(['--gap', '--main-bg', '--x', '--a-b_c']), self.value(scopevars), False)
         return ('decl', self.rng.choice(PROPS), self.value(scopevars), self.rng.random() < 0.08)
 
     # ---- media
@@ -436,12 +447,12 @@ class Layout:
         if not self.wild:
             return ' '
         r = self.rng
-        return r.choice([' ', '  ', '\t', ' \t ', ' \n', '\n ', ' \r\n ', '   ', '\n', '\r\n', '\n\n'])
+        return r.choice([' ', '  ', '\t', ' \t ', ' \n', '\n ', ' \r\n ', '   ', '\n', '\r\n', '\n\n', '\r', '\r\r', '\t\r'])
 
     def opt(self):              # an optional gap that is present
         if not self.wild:
             return ' '
-        return self.rng.choice([' ', '  ', '\t', '\n', ' \n  ', '\r\n'])
+        return self.rng.choice([' ', '  ', '\t', '\n', ' \n  ', '\r\n', '\r'])
 
     def stmt_gap(self):         # between statements: blanks, newlines, comments
         if not self.wild:
